@@ -8,6 +8,7 @@ recoverable: an intact object with that content's id is in the cache.  Outcome (
 usage: checkout_ws.py [N]      (seed from VERIF_SEED)   -> JSON report on stdout
 """
 import logging; logging.disable(logging.CRITICAL)  # noqa: E702
+import _memfs  # noqa: E402
 import hashlib, itertools, json, os, random, shutil, sys, tempfile  # noqa: E401
 
 SRC = os.environ.get("PYVC_REPO_SRC", "/repo/src")
@@ -208,6 +209,7 @@ def main():
     rng = random.Random(int(os.environ.get("VERIF_SEED", "1")))
     failures, evaluations, nontrivial = [], 0, 0
     for i in range(n):
+        _memfs.reset()
         sc = scenario(rng, i)
         try:
             rep = run_one(sc)
